@@ -35,9 +35,13 @@ Check(e) ==
   ELSE
   LET c == IF e.minimize THEN T.c ELSE Neg(T.c)
       st == IF e.minimize THEN orc.smin ELSE orc.smax
-      o == IF e.minimize THEN orc.omin ELSE <<-orc.omax[1], orc.omax[2]>>        \* optimum in the user's sign
+      o0 == IF e.minimize THEN orc.omin ELSE <<-orc.omax[1], orc.omax[2]>>       \* optimum of the integer data in the user's sign
+      o == <<o0[1], o0[2] * T.cden>>
+      \* rational data: the call was made with rows divided by powers of two (same feasible set) and the objective vector divided
+      \* by cd = T.cden; the oracle works on the integer data, so the user's objective is (c.x) / cd
+      cd == T.cden
       cx4 == SumSeq(LAMBDA j : T.c[j] * e.x4[j], n)
-      cslack == SumSeq(LAMBDA j : Abs(T.c[j]), n) + 1
+      cslack == SumSeq(LAMBDA j : Abs(T.c[j]), n) + cd
   IN IF e.solver = "simplex" THEN
        IF e.status = "MAX_ITER" THEN ""
        ELSE IF e.status \notin {"OPTIMAL", "INFEASIBLE", "UNBOUNDED"} THEN "Return.unexpected_status"
@@ -46,7 +50,7 @@ Check(e) ==
        ELSE IF ~e.finite THEN "Point.not_finite"
        ELSE IF e.huge THEN "Point.too_large_for_a_basic_solution"       \* vertices of these LPs have coordinates below 2000
        ELSE IF PointBad(e.x4, 0) # "" THEN PointBad(e.x4, 0)
-       ELSE IF Abs(e.obj4 - cx4) > cslack THEN "Objective.is_not_c_dot_x"
+       ELSE IF Abs(e.obj4 * cd - cx4) > cslack THEN "Objective.is_not_c_dot_x"
        ELSE IF Abs(e.obj6 - Dec6(o[1], o[2])) > 2 THEN "Objective.is_not_the_optimum"
        ELSE ""
      ELSE \* interior point: claims only for OPTIMAL / FEASIBLE answers
@@ -56,7 +60,7 @@ Check(e) ==
              ELSE IF e.huge THEN (IF st # "OPTIMAL" THEN "Verdict.OPTIMAL_but_problem_is_" \o st ELSE "Objective.is_not_the_optimum")
              ELSE IF st # "OPTIMAL" THEN "Verdict.OPTIMAL_but_problem_is_" \o st
              ELSE IF PointBad(e.x4, 1) # "" THEN PointBad(e.x4, 1)
-             ELSE IF Abs(e.obj4 - cx4) > cslack + 1 THEN "Objective.is_not_c_dot_x"
+             ELSE IF Abs(e.obj4 * cd - cx4) > cslack + cd THEN "Objective.is_not_c_dot_x"
              ELSE IF Abs(e.obj6 - Dec6(o[1], o[2])) > 102 THEN "Objective.is_not_the_optimum"
              ELSE "")
        ELSE IF e.status = "FEASIBLE" THEN
